@@ -132,6 +132,11 @@ def trace_terms(recs, cfgs=None, permissive=False, pins_out=None):
             def depth(n, k=0):
                 return k if not par.get(n) else depth(par[n], k + 1)
             order = lambda i: (1 if grants[i]['exclusive'] else 0, -depth(grants[i]['pool']), last.get(i, -1), i)
+            if permissive:
+                # second opinion: since Reserve tests what the pools need (shortWithout), a grant that takes the last
+                # sharable CPUs of a pool passes only BEFORE the zero-request containers of that pool are reinstated;
+                # the capacity tests come to the same in both orders (the final state satisfies the capacity invariant)
+                order = lambda i: (0 if grants[i]['exclusive'] else 1, -depth(grants[i]['pool']), last.get(i, -1), i)
             tterm, idx = tree_term(ta['pools'])
             cur = dict(tree=tterm, idx=idx, sig=pools_sig(ta), groups=[], pgroups=[])
             lost = set()
@@ -263,7 +268,7 @@ def case_file(path, traces, cfgs=None, guards=False, permissive=False):
 PHDR = 'From Coq Require Import ZArith List. Import ListNotations.\nFrom stdpp Require Import gmap.\nFrom NV Require Import TA_Model TA_Pins.\nOpen Scope nat_scope.\n'
 
 
-def pins_case_file(path, traces, cfgs):
+def pins_case_file(path, traces, cfgs, permissive=False):
     """TA_Pins.pcheck_segments on every trace: the runtime-side pins of granted containers and of running containers that
     lost their grant, against the cpusets in the implementation's cache"""
     allstats = {}
@@ -271,7 +276,7 @@ def pins_case_file(path, traces, cfgs):
         f.write(PHDR)
         for k, (name, recs) in enumerate(traces):
             out = []
-            _, st = trace_terms(recs, cfgs.get(name), False, out)
+            _, st = trace_terms(recs, cfgs.get(name), permissive, out)
             allstats[name] = {'pins_checked': st.get('pins_checked', 0), 'stale_pins_checked': st.get('stale_pins_checked', 0)}
             f.write('Definition P%d : list (tree * list (list pop * list (nat * list nat))) := %s.\n' % (k, out[0]))
             f.write('Definition Q%d := Eval vm_compute in pcheck_segments 0 P%d.\n' % (k, k))
